@@ -187,6 +187,12 @@ Reopen ==
 FNext == DoCall \/ (\E arg \in {"all", "tags"} : PackRefs(arg)) \/ GitPack \/ Reopen
 FSpec == FInit /\ [][FNext]_fvars
 
+\* The same next-state relation without the label arguments (one evaluation per call instead of
+\* one per combination of label values): for universes whose graph is only checked, not dumped.
+DoCallFast == \E c \in Calls : Become(Outcome(c), c)
+FNextFast == DoCallFast \/ (\E arg \in {"all", "tags"} : PackRefs(arg)) \/ GitPack \/ Reopen
+FSpecFast == FInit /\ [][FNextFast]_fvars
+
 \* ------------------------------------------------------------- properties
 TypeOKF ==
     /\ loose \in RefMaps
